@@ -217,7 +217,7 @@ def job_read_end(res, n):
         elif r == z3.sat: confirm(res, PID, HARNESS, 'h_slice_read_end', mk(model_dict(sol)), 'i32', 'read_end', ORACLES, f'read_end:{p.out}', 'slice(i1,end,m) differs from python')
         else: res.inc('read_end query unknown')
 
-def job_assign(res, kind, n, cplx=False, nv=None, n2=None, constsrc=0):
+def job_assign(res, kind, n, cplx=False, nv=None, n2=None, constsrc=0, signs=None):
     """kind: fill | arr | list | other | same"""
     mod, so = load(HARNESS); w = 2 if cplx else 1
     fn = {'fill': 'h_slice_fill_c' if cplx else 'h_slice_fill', 'arr': 'h_slice_assign_arr', 'list': 'h_slice_assign_list', 'other': 'h_slice_assign_other',
@@ -233,6 +233,8 @@ def job_assign(res, kind, n, cplx=False, nv=None, n2=None, constsrc=0):
             ys = xsyms(n2, 'y'); j = syms3('j'); a += [m.alloc_doubles(ys, 'y'), n2] + j + [constsrc]; c['ys'] = ys; c['j'] = j
         else:
             j = syms3('j'); a += j; c['j'] = j
+        if signs is not None:     # partition of the (step, source step) sign space across jobs: together the four parts cover all values
+            m.assume(st.e >= 0 if signs[0] else st.e < 0); m.assume(c['j'][2].e >= 0 if signs[1] else c['j'][2].e < 0)
         return a, c
     def mk(mdl):
         sp = [('pf64', distinctify(xvals(mdl, n * w))), ('i32', n)] + [('i32', model_int(mdl, q)) for q in ('i1', 'i2', 'm')]
@@ -333,8 +335,10 @@ def main(tier, seed):
     for n in range(1, (2 if q else 3) + 1):
         for n2 in range(1, (2 if q else 3) + 1):
             jobs.append((f'other n={n} n2={n2}', 'assign', dict(kind='other', n=n, n2=n2, constsrc=(n + n2) % 2), 3000))
-    for n in range(1, (3 if q else 4) + 1):
-        jobs.append((f'same n={n}', 'assign', dict(kind='same', n=n), 3000))
+    for n in range(1, (4 if q else 5) + 1):
+        if n <= 3: jobs.append((f'same n={n}', 'assign', dict(kind='same', n=n), 3000))
+        else:
+            for sg in ((1, 1), (1, 0), (0, 1), (0, 0)): jobs.append((f'same n={n} signs={sg}', 'assign', dict(kind='same', n=n, signs=sg), 6000))
     jobs.append(('same cmplx n=2', 'assign', dict(kind='same', n=2, cplx=True), 3000))
     # longest first
     jobs.sort(key=lambda j: -(j[2].get('n', 0) * 10 + (50 if j[2].get('kind') in ('same', 'other') else 0)))
@@ -344,7 +348,7 @@ def main(tier, seed):
                    'and that no other cell changes; loads/stores at symbolic offsets carry bounds obligations.',
         assumptions=['array length n enumerated (concrete) per job; index arithmetic of the constructor itself is checked for all n >= 0 symbolically',
                      'element values modelled as reals (element identity, not rounding, is the claim)', 'allocation never fails'],
-        bounds={'n': f'0..{N} (reads, scalar/array/list assignment), pairs of slices: n <= {2 if q else 3} (other array) / {3 if q else 4} (same array)',
+        bounds={'n': f'0..{N} (reads, scalar/array/list assignment), pairs of slices: n <= {2 if q else 3} (other array) / {4 if q else 5} (same array)',
                 'indices': 'all 2^96 triples (i1,i2,step) per n', 'ctor': 'all (n>=0,i1,i2,step)', 'element types': 'real and complex, const and mutable, end placeholder, copies of slice objects'},
         outside=['array lengths above the bound (element loops are uniform in n; index arithmetic is covered for all n by the constructor job)',
                  '"reading touches no other element" is decided as: every load is inside the array storage'],
